@@ -1,6 +1,7 @@
 #!/bin/bash
 # runs the thorough tier of every property once (used with `vp run` for a sweep on the unchanged tree)
-cd /verif && ./setup.sh >/dev/null 2>&1
+cd "$(dirname "$0")/.." || exit 1
+./setup.sh >/dev/null 2>&1
 for i in 01 02 03 04 05 06 07 08 09 10 11 12 13 14 15 16 17 18 19 20; do
   ./check C$i thorough 2>&1 | grep -E "VIOLATION|KNOWN-FINDING|rc=" | cut -c1-200
 done
